@@ -256,16 +256,19 @@ class P:
                     self.next()
             self.next()
         else:
-            where = self.where_clause(["{", ";", "("])
-            if self.peek() == "{":
-                fields = self.fields_named()
-            elif self.peek() == "(":
+            if self.peek() == "(":
+                # tuple struct: `struct X<T>(T) where …;`
                 fields = self.fields_tuple()
-                where = where or self.where_clause([";"])
+                where = self.where_clause([";"])
                 if self.peek() == ";":
                     self.next()
-            elif self.peek() == ";":
-                self.next()
+            else:
+                # `struct X<T> where F: Fn(T) -> U { … }` — parentheses may occur inside the clause
+                where = self.where_clause(["{", ";"])
+                if self.peek() == "{":
+                    fields = self.fields_named()
+                elif self.peek() == ";":
+                    self.next()
         if not name.startswith("__"):
             self.decls.append({
                 "name": name, "path": path, "kind": kind,
